@@ -2,6 +2,7 @@ package smtp
 
 import (
 	"crypto/tls"
+	"github.com/emersion/go-sasl"
 	"io"
 	"strconv"
 	"strings"
@@ -80,19 +81,20 @@ func verifC12(tlsActive bool) {
 	}
 	cfg.insecureAuth, cfg.authBackend, cfg.lmtp = nondetBool(), nondetBool(), nondetBool()
 	s, be, lg := verifConfigServer(cfg)
-	_ = be
+	be.saslFn = func(_ *vsession, mech string) (sasl.Server, error) { return &vsasl{failAt: -1}, nil }
 	hello := "EHLO"
 	if cfg.lmtp {
 		hello = "LHLO"
 	}
 	// one probe per run
-	probe := verifChoice(11)
+	probe := verifChoice(12)
 	probes := []string{
 		"MAIL FROM:<a@v> SMTPUTF8", "MAIL FROM:<a@v> REQUIRETLS", "MAIL FROM:<a@v> BODY=BINARYMIME",
 		"MAIL FROM:<a@v> RET=FULL", "MAIL FROM:<a@v> ENVID=x", "MAIL FROM:<a@v> SIZE=10 BODY=8BITMIME",
 		"STARTTLS", "MAIL FROM:<a@v>\r\nRCPT TO:<b@v> NOTIFY=NEVER", "MAIL FROM:<a@v>\r\nRCPT TO:<b@v> ORCPT=rfc822;x",
 		"MAIL FROM:<a@v>\r\nRCPT TO:<b@v> RRVS=2014-04-03T23:01:00Z",
 		"MAIL FROM:<a@v>\r\nRCPT TO:<b@v> RRVS=2014-04-03T23:01:00Z;C",
+		"AUTH XVERIF =\r\nSTARTTLS", // an offered STARTTLS stays available after AUTH (whatever became of it)
 	}
 	if nondetBool() {
 		// keywords and enumerated values are case-insensitive: the same probes
@@ -103,10 +105,11 @@ func verifC12(tlsActive bool) {
 			"starttls", "MAIL FROM:<a@v>\r\nRCPT TO:<b@v> notify=never", "MAIL FROM:<a@v>\r\nRCPT TO:<b@v> orcpt=rfc822;x",
 			"MAIL FROM:<a@v>\r\nRCPT TO:<b@v> rrvs=2014-04-03T23:01:00Z",
 			"MAIL FROM:<a@v>\r\nRCPT TO:<b@v> rrvs=2014-04-03T23:01:00Z;c",
+			"auth XVERIF =\r\nstarttls",
 		}
 	}
 	in := hello + " c\r\n" + probes[probe] + "\r\n"
-	if probe == 6 && !tlsActive {
+	if (probe == 6 || probe == 11) && !tlsActive {
 		// STARTTLS from plaintext never gets through here (the handshake
 		// fails): the connection stays what it was, and a second greeting
 		// must list exactly what the first one did
@@ -147,7 +150,7 @@ func verifC12(tlsActive bool) {
 	verifObserve("c12", len(eh.lines), probe, reps[len(reps)-1].code)
 	// probe outcome
 	last := reps[len(reps)-1]
-	if probe == 6 && !tlsActive {
+	if (probe == 6 || probe == 11) && !tlsActive {
 		again := last
 		last = reps[len(reps)-2]
 		if last.code == 220 && len(reps) >= 5 {
@@ -161,17 +164,17 @@ func verifC12(tlsActive bool) {
 		}
 		verifAssert(same, "C12.same-capabilities-after-failed-starttls")
 	}
-	enabled := []bool{cfg.utf8, cfg.reqtls, cfg.binmime, cfg.dsn, cfg.dsn, true, cfg.tls == 1, cfg.dsn, cfg.dsn, cfg.rrvs, cfg.rrvs}[probe]
+	enabled := []bool{cfg.utf8, cfg.reqtls, cfg.binmime, cfg.dsn, cfg.dsn, true, cfg.tls == 1, cfg.dsn, cfg.dsn, cfg.rrvs, cfg.rrvs, cfg.tls == 1}[probe]
 	if enabled {
 		verifReach("C12.probe-enabled")
-		if probe == 6 {
+		if probe == 6 || probe == 11 {
 			verifAssert(last.code == 220 || last.code == 550, "C12.advertised-starttls-accepted")
 		} else {
 			verifAssert(last.code == 250, "C12.advertised-extension-accepted")
 		}
 	} else {
 		verifReach("C12.probe-disabled")
-		if probe == 6 {
+		if probe == 6 || probe == 11 {
 			verifAssert(last.code/100 == 5, "C12.starttls-refused-when-not-offered")
 		} else {
 			verifAssert(last.code == 504, "C12.disabled-extension-504")
